@@ -260,6 +260,7 @@ static void tcp_kill(const std::shared_ptr<TcpSock> &s, int err) {
     if (s->st != TcpSock::EST || s->dead) return;
     s->dead = true;
     s->so_error = err;
+    s->killed_by = err;
     if (s->out) { s->out->flight.clear(); }
     G->kmut++;
 }
